@@ -55,7 +55,7 @@ def bi_read(df, asof = None, what = -1):
     if not is_bi(df) or what == 'all':
         return df
     if is_date(asof):
-        df = df[df[_updated]<=asof]
+        df = df[df[_updated]<=dt(asof)]
     if is_bi(asof):
         df = df[df[_updated] <= asof.reindex(df.index)[_updated]]
     index_name = df.index.name
@@ -322,7 +322,7 @@ def Bi(df, asof = None):
     if asof is None or is_bi(df):
         return df
     if is_series(df):
-        df = pd.DataFrame(df, columns = [_series])
+        df = df.to_frame(name = _series)
     else:
         df = df.copy()
     if asof == 'shift':
